@@ -401,6 +401,27 @@ class FaultPoint(EngineBase):
                         V("C03.shape", "%s returned duplicates %r" %
                           (name, pl), ["dup"])
 
+        # the same query once more, undisturbed: a refused call must not
+        # leave the object half-updated
+        if denied and not any(f["kind"] not in ERRNO for f in faults) and \
+                target in final and not final[target][1]:
+            k.begin_op(900)
+            try:
+                o2 = ("value", call_subject(psutil, p, name, args))
+            except BaseException as e:  # noqa: BLE001
+                if is_harness_exc(e):
+                    raise
+                o2 = ("exc", e)
+            k.end_op()
+            if o2[0] == "exc" and exc_class(psutil, o2[1]) not in (
+                    "NSP", "ZP", "AD"):
+                V("C03.leak", "%s, called again with nothing refused after "
+                  "a refused call, leaked %r" % (name, o2[1]),
+                  [exc_class(psutil, o2[1]), "second_call"])
+            elif o2[0] == "exc" and exc_class(psutil, o2[1]) == "AD":
+                V("C03.cause", "%s, called again with nothing refused, "
+                  "raised %r" % (name, o2[1]), ["AD", "nodeny",
+                                                "second_call"])
         # a zombie that is reaped after the call: gone for good as well
         if plan.get("then_reap") and target in final:
             k.begin_op(1)
